@@ -1,6 +1,8 @@
 (** C02 - GC never reclaims or corrupts reachable data: property theorems only. *)
 From ChibiV Require Import C02.Model C02.Spec C02.Proofs C02.Progress Gen.C02_Layout C02.LayoutCheck.
 From ChibiV Require C02.VmTop Gen.C02_VmTop C02.VmTopCheck.
+From ChibiV Require C02.GcMacros C02.GcMacrosProofs Gen.C02_GcMacros C02.GcMacrosCheck.
+From ChibiV Require C02.Preserve C02.PreserveProofs.
 Local Open Scope Z_scope.
 
 (** sexp_mark (gc.c:256-302) started on a heap with all marks clear marks exactly the objects
@@ -125,3 +127,51 @@ Theorem vm_stack_scan_exact : forall name items c o,
   match o with VmTop.OBad => False | VmTop.OFall c' | VmTop.OBreak c' | VmTop.OStop c' => VmTop.entry c' end.
 Proof. exact VmTopCheck.vm_opcodes_scan_exactly_written_prefix. Qed.
 Print Assumptions vm_stack_scan_exact.
+
+(** round 4: the documented preservation interface itself.  Generated obligation over the table regenerated (cc -E with the
+    build's flags) from include/chibi/sexp.h: for every arity K of the sexp_gc_var<K> / sexp_gc_preserve<K> / sexp_gc_release<K>
+    families: var<K> declares exactly its K distinct arguments, each initialised to the immediate SEXP_VOID, and K distinct
+    records {NULL, NULL}; after preserve<K> the marker's walk over the context's saves list (gc.c:264-267) visits exactly the
+    K arguments (last first) and then the caller's list; release<K> leaves exactly the caller's list (all K records popped).
+    Must not change: a slip in one arity (seed C10-c1: preserve7 registers its 6th argument twice, never its 7th) unroots a
+    variable in every user of that arity. *)
+Theorem gc_macros_register_exactly_their_arguments : forall m,
+  In m C02_GcMacros.gc_macro_table -> GcMacrosProofs.macro_spec m.
+Proof. exact GcMacrosCheck.gc_macros_spec. Qed.
+Print Assumptions gc_macros_register_exactly_their_arguments.
+
+(** the table covers arities 1..n with n >= 7, and every entry has the canonical shape
+    (one (var, next, saves) store triple per argument, in order; release through the first record) *)
+Theorem gc_macro_table_is_canonical :
+  (map GcMacros.arity C02_GcMacros.gc_macro_table = seq 1 (List.length C02_GcMacros.gc_macro_table)
+   /\ Nat.leb 7 (List.length C02_GcMacros.gc_macro_table) = true)
+  /\ forallb GcMacros.macro_canonb C02_GcMacros.gc_macro_table = true.
+Proof. exact (conj GcMacrosCheck.gc_macro_table_arities GcMacrosCheck.gc_macro_table_canonical). Qed.
+Print Assumptions gc_macro_table_is_canonical.
+
+(** ... and the canonical shape is correct for EVERY arity (induction, not enumeration): for any K, any K distinct record
+    names, any K arguments and any state whose saves list is the caller's, the K store triples make the marker's walk visit
+    exactly the K arguments, last first, then the caller's list, and the release through the first record restores the
+    caller's list. *)
+Theorem gc_preserve_registers_exactly : forall ps args s,
+  List.length ps = List.length args -> NoDup ps -> GcMacros.saves s = GcMacros.POut ->
+  let s' := GcMacros.execs (GcMacros.canon_preserve ps args) s in
+  GcMacros.walk (S (List.length ps)) s' (GcMacros.saves s') = Some (map GcMacros.EVar (rev args) ++ [GcMacros.EOut])%list
+  /\ GcMacros.saves (GcMacros.execs (GcMacros.canon_release ps) s') = match ps with nil => GcMacros.saves s' | _ => GcMacros.POut end.
+Proof. exact GcMacrosProofs.canon_preserve_registers_exactly. Qed.
+Print Assumptions gc_preserve_registers_exactly.
+
+(** the other half of the documented interface, sexp_preserve_object / sexp_release_object (gc.c:116-129; the list hangs off
+    the context's globals, so what is on it is reachable and kept by theorems 4/5): releasing x removes exactly ONE registration
+    of x and nothing else - an object preserved n times stays on the list until it has been released n times, and no other
+    object's registration is touched *)
+Theorem release_object_removes_exactly_one_registration : forall x y l,
+  count_occ Nat.eq_dec (Preserve.release_obj x l) y =
+  if Nat.eqb x y then pred (count_occ Nat.eq_dec l y) else count_occ Nat.eq_dec l y.
+Proof. exact PreserveProofs.release_count. Qed.
+Print Assumptions release_object_removes_exactly_one_registration.
+
+Theorem preserved_object_stays_until_released : forall x y l,
+  In y (Preserve.release_obj x l) <-> (if Nat.eqb x y then (2 <= count_occ Nat.eq_dec l y)%nat else In y l).
+Proof. exact PreserveProofs.preserved_until_released. Qed.
+Print Assumptions preserved_object_stays_until_released.
